@@ -246,6 +246,21 @@ fn release_action_mappings(state: &mut State) -> Vec<Event> {
 fn add_new_mapping(state: &mut State, new_key: &KeyCode, m: &Mapping) -> StepResult {
   let mut events: Vec<Event> = Vec::new();
   
+  if is_action_mapping(m) {
+    events.append(&mut release_action_mappings(state));
+    let should_absorb = {
+      match &state.absorbing_trigger {
+        Some(absorbing_trigger) => *absorbing_trigger != *new_key,
+        None => true
+      }
+    };
+    if should_absorb {
+      events.append(&mut release_absorbed_keys(state));
+    }
+  }
+  
+  // Consume the trigger keys only now: releasing absorbed keys above can hand a
+  // key of this mapping's trigger back to pass-through
   let pass_through_keys = &mut state.pass_through_keys;
   let mapped_output_keys = &mut state.mapped_output_keys;
   
@@ -264,19 +279,6 @@ fn add_new_mapping(state: &mut State, new_key: &KeyCode, m: &Mapping) -> StepRes
       true
     }
   });
-  
-  if is_action_mapping(m) {
-    events.append(&mut release_action_mappings(state));
-    let should_absorb = {
-      match &state.absorbing_trigger {
-        Some(absorbing_trigger) => *absorbing_trigger != *new_key,
-        None => true
-      }
-    };
-    if should_absorb {
-      events.append(&mut release_absorbed_keys(state));
-    }
-  }
   
   for new_key in &m.to {
     if is_action_key(new_key) {
